@@ -32,6 +32,17 @@ static const pstate ST[] = {
     { "response chunked body",   1, "GET / HTTP/1.1\r\nHost: h\r\n\r\n", "HTTP/1.1 200 OK\r\nTransfer-Encoding: chunked\r\n\r\n", "", "0\r\n\r\n" },
     { "response identity body",  1, "GET / HTTP/1.1\r\nHost: h\r\n\r\n", "HTTP/1.1 200 OK\r\n\r\n",  "", "" },
     { "content-encoding list",   1, "GET / HTTP/1.1\r\nHost: h\r\n\r\n", "HTTP/1.1 200 OK\r\nContent-Encoding: ", "", "gzip\r\nContent-Length: 0\r\n\r\n" },
+    { "content-encoding list, unknown last token", 1, "GET / HTTP/1.1\r\nHost: h\r\n\r\n", "HTTP/1.1 200 OK\r\nContent-Encoding: ", "", "x\r\nContent-Length: 0\r\n\r\n" },
+    { "response transfer-encoding value", 1, "GET / HTTP/1.1\r\nHost: h\r\n\r\n", "HTTP/1.1 200 OK\r\nTransfer-Encoding: ", "", "chunked\r\n\r\n0\r\n\r\n" },
+    { "response content-length value", 1, "GET / HTTP/1.1\r\nHost: h\r\n\r\n", "HTTP/1.1 200 OK\r\nContent-Length: ", "", "0\r\n\r\n" },
+    { "response content-type value", 1, "GET / HTTP/1.1\r\nHost: h\r\n\r\n", "HTTP/1.1 200 OK\r\nContent-Type: text/html", "", "\r\nContent-Length: 0\r\n\r\n" },
+    { "request transfer-encoding value", 0, "POST / HTTP/1.1\r\nHost: h\r\nTransfer-Encoding: ", "",    "chunked\r\n\r\n0\r\n\r\n", "HTTP/1.1 200 OK\r\nContent-Length: 0\r\n\r\n" },
+    { "request content-type value", 0, "POST / HTTP/1.1\r\nHost: h\r\nContent-Length: 0\r\nContent-Type: multipart/form-data", "", "\r\n\r\n", "HTTP/1.1 200 OK\r\nContent-Length: 0\r\n\r\n" },
+    { "request content-length value", 0, "POST / HTTP/1.1\r\nHost: h\r\nContent-Length: ", "",           "0\r\n\r\n", "HTTP/1.1 200 OK\r\nContent-Length: 0\r\n\r\n" },
+    { "host header value",       0, "GET / HTTP/1.1\r\nHost: ", "",                                      "\r\n\r\n", "HTTP/1.1 200 OK\r\nContent-Length: 0\r\n\r\n" },
+    { "authorization digest value", 0, "GET / HTTP/1.1\r\nHost: h\r\nAuthorization: Digest ", "",      "\r\n\r\n", "HTTP/1.1 200 OK\r\nContent-Length: 0\r\n\r\n" },
+    { "authorization basic value", 0, "GET / HTTP/1.1\r\nHost: h\r\nAuthorization: Basic ", "",        "\r\n\r\n", "HTTP/1.1 200 OK\r\nContent-Length: 0\r\n\r\n" },
+    { "authority in request line", 0, "GET http://", "",                                                  "/ HTTP/1.1\r\nHost: h\r\n\r\n", "HTTP/1.1 200 OK\r\nContent-Length: 0\r\n\r\n" },
     { "before status line",      1, "GET / HTTP/1.1\r\nHost: h\r\n\r\n", "",                         "", "HTTP/1.1 200 OK\r\nContent-Length: 0\r\n\r\n" },
     { "after complete response", 1, "GET / HTTP/1.1\r\nHost: h\r\n\r\n", "HTTP/1.1 200 OK\r\nContent-Length: 0\r\n\r\n", "", "" },
 };
@@ -43,6 +54,7 @@ static const punit UN[] = {
     { "&", "&", 0 }, { "a=b&", "a=b&", 0 }, { "distinct param", "p%d=v&", 1 }, { "=", "=", 0 }, { "%", "%", 0 }, { "%u", "%u", 0 }, { "+", "+", 0 }, { "; c=d", "; c=d", 0 }, { "distinct cookie", "c%d=v; ", 1 },
     { ",", ",", 0 }, { "gzip, ", "gzip, ", 0 }, { "--", "--", 0 }, { "CRLF--B", "\r\n--B", 0 }, { "multipart part", "--B\r\nContent-Disposition: form-data; name=\"a\"\r\n\r\nv\r\n", 0 },
     { "/", "/", 0 }, { "/.", "/.", 0 }, { "/../", "/../", 0 }, { "backslash", "\\", 0 }, { "%2f", "%2f", 0 }, { "overlong utf8", "\xc0\xaf", 0 }, { "NUL", "\0", 0 }, { "HTTP/1.1 200 OK CRLF", "HTTP/1.1 200 OK\r\n", 0 },
+    { "quote", "\"", 0 }, { "username=\"", "username=\"", 0 }, { ":", ":", 0 }, { ".", ".", 0 }, { "@", "@", 0 }, { "[", "[", 0 }, { "chunked,", "chunked,", 0 },
     { "GET / CRLF", "GET /\r\n", 0 }, { "x CRLF", "x\r\n", 0 }, { "SP CRLF", " \r\n", 0 },
     /* two-phase units: the first half of the repetitions uses the text before '|', the second half the text after it */
     { "SP^k then 0^k", " |0", 2 }, { "HTAB^k then a^k", "\t|a", 2 }, { "CRLF^k then 0^k", "\r\n|0", 2 }, { "SP^k then x^k", " |x", 2 }, { "a^k then SP^k", "a| ", 2 }, { "0^k then ;e^k", "0|;e", 2 },
